@@ -118,6 +118,9 @@ def generate():
     # shape switches: the model follows either form of the code
     # gnutar: is the main header formatted (and the entry possibly refused) before the 'K'/'L' records are written?
     L.append(boolean("GNUTAR_header_first", has(W + "gnutar.c", "archive_format_gnutar_header(a, mainbuff")))
+    # tar reader, header_ustar: is a '/' always put between prefix and name, or only when the prefix does not end with one?
+    L.append(boolean("USTAR_join_always_slash",
+                     not re.search(r"if\s*\(as\.s\[archive_strlen\(&as\)\s*-\s*1\]\s*!=\s*'/'\)", cdefs.strip_comments(cdefs.read(R + "tar.c")))))
     for rel, nm in ((W + "ustar.c", "ustar_template"), (W + "v7tar.c", "v7tar_template"), (W + "gnutar.c", "gnutar_template")):
         L.append(zlist(nm, template(rel)))
     return "\n".join(L) + "\n"
